@@ -70,6 +70,13 @@ func runListRel(dir, focus string, env *execEnv, caseStr string) (*relation, []V
 		return rel, nil
 	}
 	rel.rawSx = listResultSx(conns, peers)
+	if b := blockedPeers(ca); len(b) > 0 {
+		x := Ls(At("blocked"))
+		for _, n := range b {
+			x.Add(At(n))
+		}
+		rel.rawSx.Add(x)
+	}
 	for _, p := range peers {
 		if p.IsPeerIPType() {
 			lo, hi, _ := ipRangeOf(p.String())
